@@ -732,6 +732,8 @@ def while_shapes(fn: ast.FunctionDef, ref_whiles: List[str]) -> None:
             continue
         t = n.test
         neg = t.operand if isinstance(t, ast.UnaryOp) and isinstance(t.op, ast.Not) else ast.UnaryOp(op=ast.Not(), operand=t)
+        from .canon import _Canon
+        neg = _Canon().visit(ast.fix_missing_locations(ast.copy_location(neg, n)))
         brk = ast.If(test=neg, body=[ast.Break()], orelse=[])
         ast.copy_location(brk, n)
         for y in ast.walk(brk):
